@@ -1255,6 +1255,12 @@ func runC06(c *ctx) {
 			jobs = append(jobs, &c06job{kind: "dfpn", root: p, entries: 16, attacker: tak.Black, modelOK: true, forceModel: true})
 			c.stat("long_model_runs_with_repetition", 1)
 		}
+		// the cheapest run with a repetition found on 3x3 with 2 stones + capstone (all 99964 live positions x attacker W/B/unset x
+		// tables 1..65536): 3899 calls of mid, 73 s of model time - still beyond the quick budget
+		if p, err := c06customTPS(tak.Config{Size: 3, Pieces: 2, Capstones: 1}, "x3/x3/x,22S,1 1 4"); err == nil {
+			jobs = append(jobs, &c06job{kind: "dfpn", root: p, entries: 1024, attacker: tak.White, modelOK: true, forceModel: true})
+			c.stat("long_model_runs_with_repetition", 1)
+		}
 	}
 
 	c06runJobs(c, jobs)
